@@ -83,7 +83,7 @@ pub fn classify_zero_coin(err: &str, lenient: &crate::chain::Trace, keeper_rate:
 }
 
 impl C19 {
-    fn judge(&self, c: &Ctx, res: &StepResult, post: &Snap, out: &mut Out) {
+    fn judge(&self, c: &Ctx, res: &StepResult, post: &Snap, via_removal: bool, out: &mut Out) {
         let pre = c.pre;
         let tr = res.trace().unwrap();
         out.count("c19.updates_judged");
@@ -96,7 +96,8 @@ impl C19 {
             })
             .collect();
         for v in pre.delegations.keys() {
-            if !withdrawn.contains(&v) {
+            // (inside RemoveValidator the redelegation itself pays out the rewards of the validators it touches)
+            if !via_removal && !withdrawn.contains(&v) {
                 out.violation(P, "withdraw_from_every_validator", format!("hub delegates to {} but did not withdraw its rewards", v));
             }
         }
@@ -310,6 +311,17 @@ impl C19 {
 
 impl Monitor for C19 {
     fn on_step(&mut self, c: &Ctx, _rng: &mut Rng, out: &mut Out) {
+        // index updates triggered by the registry while it removes a validator are judged too
+        if let Op::RemoveValidator { sender, .. } = c.op {
+            if sender == OWNER && c.res.ok() && !c.pre.params.paused.unwrap_or(false) {
+                let has_update = c.res.trace().map(|t| t.execs.iter().any(|e| e.callee == HUB && e.msg.starts_with("{\"update_global_index\""))).unwrap_or(false);
+                if has_update {
+                    out.count("c19.updates_inside_validator_removal");
+                    self.judge(c, c.res, c.post, true, out);
+                }
+            }
+            return;
+        }
         let sender = match c.op {
             Op::UpdateGlobalIndex { sender } => sender,
             _ => return,
@@ -323,7 +335,7 @@ impl Monitor for C19 {
         }
         out.count("c19.updates");
         if c.res.ok() {
-            self.judge(c, c.res, c.post, out);
+            self.judge(c, c.res, c.post, false, out);
             return;
         }
         let err = c.res.tx.as_ref().unwrap().err.clone();
@@ -343,7 +355,7 @@ impl Monitor for C19 {
                 out.known(P, "executes_whenever_bonded", &csig, format!("UpdateGlobalIndex failed: {}", err));
                 out.count("c19.updates_failed_by_known_zero_coin_transfer");
                 let post2 = snap::take(&w);
-                self.judge(c, &r2, &post2, out);
+                self.judge(c, &r2, &post2, false, out);
             }
             _ => {
                 out.violation(P, "executes_whenever_bonded", format!("UpdateGlobalIndex failed while stake is bonded (delegated {}, pools {}+{}): {}", pre.total_delegated, pre.pool_b, pre.pool_s, err));
